@@ -174,6 +174,23 @@ def h_seq(shape):
                     tq = {q: seq._basis_ref[basis][q].last_used for q in tgt}
                     for q in tgt:
                         delta[(q, basis)] = post
+            elif op[0] == "eom_on":
+                seq.enable_eom_mode(op[1], 2.0, 0.0, -1.0)
+            elif op[0] == "eom_off":
+                seq.disable_eom_mode(op[1])
+            elif op[0] == "add_eom":
+                name = op[1]
+                basis = seq.declared_channels[name].basis
+                prog_phase = inp.phase("ph%d" % i, PH_N, -PH_TURNS, PH_TURNS)
+                post = inp.phase("post%d" % i, PH_N, -PH_TURNS, PH_TURNS) if op[3] else 0.0
+                tgt = set(seq._schedule[name][-1].targets)
+                refs = {q: seq._basis_ref[basis][q].phase.last_phase for q in tgt}
+                seq.add_eom_pulse(name, op[2], prog_phase, post_phase_shift=post)
+                sl = [x for x in seq._schedule[name].slots if hasattr(x.type, "phase") and not seq._schedule[name].is_detuned_delay(x.type)][-1]
+                obs.append(("k2:pulse_phase_is_programmed_plus_ref", congruent(facade._unwrap0(sl.type.phase), prog_phase + refs[sorted(tgt)[0]])))
+                if op[3]:
+                    for q in tgt:
+                        delta[(q, basis)] = post
             elif op[0] == "target":
                 try:
                     seq.target(op[2], op[1])
@@ -246,6 +263,10 @@ def kernels(tier):
             ks.append(("seq", dict(device=dev, channels=[chans[2]], pre_dmm=pre, program=[
                 ["shift", ["q0"], ryd], ["shift", ["q1", "q2"], ryd], ["add", "r", "min-delay", 16, True], ["shift", ["q2"], ryd]])))
         if dev == "virt":
+            # EOM pulses carry a programmed phase and an optional post-phase-shift like any other pulse
+            ks.append(("seq", dict(device=dev, channels=chans, program=[
+                ["shift", ["q0", "q1", "q2"], ryd], ["eom_on", "r"], ["add_eom", "r", 16, True], ["add_eom", "r", 20, False],
+                ["add_eom", "r", 16, True], ["eom_off", "r"], ["add", "r", "min-delay", 16, False]])))
             # durations that are not clock multiples (the pulse is stretched) with a non-zero reference
             ks.append(("seq", dict(device=dev, channels=chans, program=[
                 ["shift", [], ryd], ["add", "r", "min-delay", 17, True], ["add", "r", "min-delay", 19, False],
